@@ -39,7 +39,7 @@ RULE = (
     "x every (feature subset, sample subset) fully NaN leaving >= 2 features and >= 3 samples of an n x 4 input (n = 4 quick, 5 thorough); "
     "list inputs whose two items miss samples at different positions (all pairs of <= 1 sample each); "
     "isolated masks: every single cell, every row-minus-one-cell, every column-minus-one-cell, every cyclic diagonal, and (thorough) every cell combined with a "
-    "fully missing feature or sample, each at fit and at transform; every (training feature subset, one-feature change) transform mismatch; "
+    "fully missing feature or sample, each at fit and at transform; every (training feature subset, one feature added/removed/moved) transform mismatch with center on/off; "
     "cross-set (MCA, CPCCA alpha=.5, MCARotator) x every pair (sample mask of X, sample mask of Y) with <= 2 missing samples each "
     "(quick: at most 2 in total, n = 6; thorough: n = 8) and every pair of <= 1 missing feature per field with and without a missing sample; "
     "every isolated cell of X and of Y at fit and at transform of MCA. A case is non-trivial when a numeric comparison with the "
@@ -132,9 +132,14 @@ def cases(tier, seed):
     # ---- C: transform data whose missing features differ by one from the training data
     for model in ["EOF"] + ([] if quick else ["EOFRotator"]):
         for cont in containers:
-            for fm in fsubs:
-                for j in range(P):
-                    out.append(dict(kind="transform_mismatch", model=model, container=cont, n=n, stage="transform", fmask=fm, flip=j))
+            for center in (True, False):
+                for fm in fsubs:
+                    for j in range(P):
+                        out.append(dict(kind="transform_mismatch", model=model, container=cont, n=n, stage="transform", center=center, fmask=fm, flip=[j]))
+                    for a in fm:  # same number of missing features, one of them moved
+                        for b in range(P):
+                            if b not in fm:
+                                out.append(dict(kind="transform_mismatch", model=model, container=cont, n=n, stage="transform", center=center, fmask=fm, flip=[a, b]))
     # ---- D: cross-set, every pair of per-field sample masks
     nc = 6 if quick else 8
     cm = _subsets(nc, 2)
@@ -351,10 +356,10 @@ def _nonconvergence(e, fit_masked):
 # ----------------------------------------------------------------------------- single-set models
 
 
-def _fit_single(model, data, k, standardize=False):
+def _fit_single(model, data, k, standardize=False, center=True):
     import xeofs as xe
 
-    base = xe.single.EOF(n_modes=k, standardize=standardize, use_coslat=False, solver="full", random_state=3)
+    base = xe.single.EOF(n_modes=k, center=center, standardize=standardize, use_coslat=False, solver="full", random_state=3)
     base.fit(data, dim="time")
     if model == "EOF":
         return base
@@ -581,17 +586,19 @@ def _run_transform_mismatch(case, seed):
     n, cont, model = case["n"], case["container"], case["model"]
     X = _base(n, seed)
     fm = list(case["fmask"])
-    j = case["flip"]
-    fm2 = sorted(set(fm) ^ {j})
+    flip = list(case["flip"])
+    center = bool(case.get("center", True))
+    fm2 = sorted(set(fm) ^ set(flip))
+    direction = "swapped" if len(flip) == 2 else ("more_missing" if flip[0] not in fm else "fewer_missing")
     with warnings.catch_warnings():
         warnings.simplefilter("ignore")
-        m = _fit_single(model, _container(_apply(X, fm), cont), 2)
+        m = _fit_single(model, _container(_apply(X, fm), cont), 2, center=center)
         try:
             tr = m.transform(_container(_apply(X, fm2), cont))
         except Exception as e:  # noqa: BLE001
             return dict(outcome="rejected:" + type(e).__name__, nontrivial=False, info=dict(stage="transform"))
     v = viol("feature_mask_mismatch_accepted", model, "transform accepted data whose fully missing features %s differ from the training data's %s; %d finite scores returned"
-             % (fm2, fm, _finite_count(tr)), container=cont, direction="more_missing" if j not in fm else "fewer_missing")
+             % (fm2, fm, _finite_count(tr)), container=cont, direction=direction, center=center)
     return dict(violations=[v], outcome="violation", nontrivial=False)
 
 
